@@ -1,6 +1,7 @@
 """C15 — directory coherence."""
 from __future__ import annotations
 
+from histgen import MODE
 from props import _hist
 
 ID = "C15"
@@ -18,7 +19,17 @@ EXHAUSTIVE = {}
 
 
 def known_witness_cases():
-    return []
+    # D10: a unit defined as ZERO times another gets scale 1
+    ops = [["observe"], ["decl_class", "L", "-", "m", "0", "-"], ["observe"],
+           ["new_unit", "L", "z", "qty", "0", "m", MODE], ["observe"],
+           ["unit_info", "z"]]
+    meta = [dict(kind="observe0"),
+            dict(kind="base-class", expect="ok", new_sym="m", new_cls="L"), dict(kind="observe"),
+            dict(kind="scaled-unit", expect="ok", new_sym="z", new_cls=None), dict(kind="observe"),
+            dict(kind="unit_info", sym="z")]
+    world = dict(units={"m": dict(cls="L", scale="1"), "z": dict(cls="L", scale="0")},
+                 classes={"L": dict(ref="m", units=["m", "z"], quantum=None)}, order=["L"])
+    return [{"ops": ops, "fork": True, "meta": meta, "world": world, "tags": ["witness:D10"]}]
 
 
 def tolerated(case, i, impl, model):
